@@ -70,7 +70,7 @@ func runScenario(bin, dir string, sc *scenario) (res runResult) {
 	auditPath := filepath.Join(dir, "audit-pipe")
 	outPath := filepath.Join(dir, "events.log")
 	stderrPath := filepath.Join(dir, "stderr.log")
-	if err := errors.Join(syscall.Mkfifo(sshdPath, 0o600), syscall.Mkfifo(auditPath, 0o600), os.WriteFile(outPath, nil, 0o600)); err != nil {
+	if err := errors.Join(syscall.Mkfifo(sshdPath, 0o600), syscall.Mkfifo(auditPath, 0o600), os.WriteFile(outPath, prefillBytes(sc.Prefill), 0o600)); err != nil {
 		return fail("harness:set-up", err.Error())
 	}
 	stderrF, err := os.Create(stderrPath)
